@@ -489,3 +489,7 @@ _quick("C11", "C11_followerack", "the follower's side of an acknowledgement (rea
 _quick("C10", "C10_forward", "forwarding through the text wrapper: a follower whose text connection is wrapped in TransparencyTextServerProtocol with an in-memory link, a leader that executes every forwarded frame (real BinaryServerProtocol.ProcessParse; results back through the link's real processTextProcotol) and a reference leader with a plain text client; every program of 3 commands out of {LOCK k, UNLOCK k, LOCK k by another id, UNLOCK by that id, PUSH j, UNLOCK j}, the leader's results delivered right after each command or only when the follower's handler waits (vfBlockHook): every reply equals the reference client's byte for byte, the follower holds nothing itself", [], reach=["end", "relayed", "handler-waited"], native=False)
 
 _quick("C10", "C10_relaybin", "forwarding through the binary wrapper, for every frame: any LOCK / UNLOCK frame (all fields symbolic; database 0, no value frame, concurrent-check flag clear) through TransparencyBinaryServerProtocol.ProcessParse (its own hand-inlined decoder) goes out on the link to the leader as exactly one frame that equals the client's byte for byte, and nothing is answered or applied locally; any lock result frame coming back (undefined trailing bytes zero) through processBinaryProcotol is written to the client as exactly those 64 bytes", [], reach=["end", "forwarded"], native=False)
+
+_PIPE = "a shared key whose holder SET an 8-byte value; an ack-required lock carrying a PIPELINE of two sub-operations out of {SET, APPEND, SHIFT 1, INCR 1} goes pending; the acknowledgement fails (negative follower ack / the wait runs out): one error reply, no crash, the register holds the 8 bytes from before"
+_quick("C11", "C11_pipeline", _PIPE, ["-witness", "1"])
+_quick("C13", "C11_pipeline", "(also under C11) " + _PIPE + " (every run-time check on the undo path is an obligation: well-formed frames must not crash the server)", ["-witness", "1"])
